@@ -1,4 +1,22 @@
 """C02 — automatic mode returns the complete prime factorization."""
+# SIZE AUDIT (quick tier), measured on cases('quick', Random(1)): bit length of n handed to factor() (release profile only)
+# sizes the code supports: factor() refuses above 500 bits; Auto switches on the bit length of the part left after trial division:
+# < 52 Pollard rho, 52..128 ecm128 (u128 / M128 arithmetic), above 64 pm1_quick first and the Uint perfect-power test (u64 test up to
+# 64), above 128 ecm_auto on ZmodN (2..8 words) then SIQS; fallback Ecm128 up to 80 bits, SIQS above.
+#   selector   quick max   thorough max   supported   boundary lengths reached by quick BEFORE this audit (count)
+#   auto       128         200            500         51 (102), 52 (149), 63 (86), 64 (166), 65 (110), 80 (156), 127 (8), 128 (17);
+#                                                     81: none, 129 and above: NONE, so the general path of Auto (pm1_quick / ecm_auto on
+#                                                     ZmodN / SIQS fallback, the Uint perfect-power test above 128 bits, pseudoprime on
+#                                                     3..8 words) was never run by the quick tier of this property
+#   ecm        100         200            500         none
+#   ecm128     79          128            128         64 (1)
+#   qs/mpqs/siqs 95/100/120 200           448         none (their size classes belong to C12 / C13)
+#   factor_sweep (all selectors) n < 2^22 exhaustively: below every boundary
+# Added: boundary_cases (both tiers, first, own rng stream, auto mode, ~90 requests, < 3 s): balanced semiprimes of EXACTLY 51, 52, 64,
+# 65, 80, 81, 128, 129, 130, 144, 160 bits, products of the primes next to 2^32 and 2^64 (top of 64 / 128 bits, bottom of 65 / 129),
+# 30-bit (22-bit above 257) prime times a prime of exactly 129, 192, 193, 256, 257, 320, 384, 448, 449, 499, 500 bits, primes of 64..500 bits, prime
+# squares / cubes on both sides of 64 and 128 bits and at 500, smooth part times a 480-bit prime. (501 bits = refused: the oracle of
+# this property only judges returned factor lists; the refusal is C03's.)
 from vlib.pipeline import Case
 from vlib import gen
 from props import factor_common as fc
@@ -10,7 +28,9 @@ AUDIT = "Ymq.Audit.C02"
 THEOREMS = ['Ymq.C02.auto_composite_needs_giveup', 'Ymq.C02.auto_composite_needs_giveup_det', 'Ymq.C02.auto_complete', 'Ymq.C02.factor_composite_needs_giveup', 'Ymq.C02.factor_auto_complete', 'Ymq.C02.auto_complete_on', 'Ymq.C02.auto_complete_64']
 PROFILES = ["release"]
 TIMEOUT = 300.0
-RULE = ("exhaustive sweep of n < 2^22 (quick) / 2^26 (thorough) in Auto mode and smaller ranges for the other selectors, judged "
+RULE = ("boundary family first, in both tiers (Auto): balanced semiprimes of exactly 51, 52, 64, 65, 80, 81, 128, 129, 130, 144, 160 bits, products "
+        "of the primes next to 2^32 / 2^64, 30-bit prime times a prime at 129..500 bits (every ZmodN word count), primes and prime powers "
+        "at 64..500 bits; then: exhaustive sweep of n < 2^22 (quick) / 2^26 (thorough) in Auto mode and smaller ranges for the other selectors, judged "
         "inside the harness by naive trial division; plus structured n with known factorisation (prime powers, squares of "
         "composites, p^2 q, many factors, tiny/close/repeated factors, factor-base primes) up to ~128 bits quick / ~200 bits "
         "thorough, threads in {none,2,4}, compared with the known multiset of primes; non-trivial = composite n; distinct by request line "
@@ -23,8 +43,61 @@ HYPOTHESES = ["auto_complete_64: Hpsi2, Hpsi5, Hpsi12 (minimal strong pseudoprim
 _sweep_inputs = [0]
 
 
+def _fork(rng, label):
+    """own stream for the boundary family: depends on the run's seed, leaves the stream of the older families untouched"""
+    import random
+    return random.Random(f"{label}:{rng.getstate()[1][:4]}")
+
+
+def _exact_product(rng, bits, pbits):
+    """primes p (pbits bits) and q with p*q of EXACTLY `bits` bits"""
+    while True:
+        p, q = gen.rand_prime(rng, pbits), gen.rand_prime(rng, bits - pbits + rng.randrange(2))
+        if p != q and (p * q).bit_length() == bits:
+            return p, q
+
+
+def boundary_cases(rng, tier):
+    """Auto mode at every size class of factor(): the bit lengths where the strategy switches (52, 64/65, 80/81, 128/129), the general
+    path above 128 bits up to the 500-bit limit, word boundaries of ZmodN; all inputs finish in milliseconds (balanced semiprimes only
+    up to 160 bits, above that a 30-bit factor, a prime, a prime power or a smooth part)"""
+    reps = 2 if tier == "quick" else 6
+
+    def case(fs, shape, toks=""):
+        n = fc.prod(fs)
+        return Case(f"factor {n} auto{toks}", k=False, tag=f"edge-{shape}|" + ",".join(map(str, sorted(fs))), profiles=["release"])
+
+    for bits in (51, 52, 64, 65, 80, 81, 128, 129, 130, 144, 160):
+        for r in range(reps):
+            yield case(_exact_product(rng, bits, bits // 2), f"semi{bits}", " threads=2" if r == 1 and bits > 128 else "")
+    # primes next to 2^32 / 2^64: products at the very top of 64 / 128 bits and at the very bottom of 65 / 129 bits
+    for k in (32, 64):
+        a1 = gen.prev_prime(1 << k)
+        a2 = gen.prev_prime(a1)
+        b1 = gen.next_prime(1 << k)
+        b2 = gen.next_prime(b1)
+        for fs in ([a1, a2], [a1, b1], [b1, b2], [a1, a1], [b1, b1]):
+            assert fc.prod(fs).bit_length() in (2 * k, 2 * k + 1)
+            yield case(fs, f"pow2-{2 * k}")
+    # a 30-bit (22-bit) factor times a prime: every word count of ZmodN up to the limit
+    for bits in (129, 192, 193, 256, 257, 320, 384, 448, 449, 499, 500):
+        yield case(_exact_product(rng, bits, 30 if bits <= 257 else 22), f"small{bits}")     # (22: seconds of ECM otherwise)
+    for bits in (64, 65, 128, 129, 192, 256, 448, 499, 500):
+        yield case([gen.rand_prime(rng, bits)], f"prime{bits}")
+    # prime powers: u64 perfect-power test up to 64 bits, Uint test above
+    for pb, k in ((32, 2), (33, 2), (64, 2), (65, 2), (128, 2), (250, 2), (21, 3), (22, 3), (43, 3), (166, 3), (100, 5)):
+        pr = gen.rand_prime(rng, pb)
+        yield case([pr] * k, f"power{(pr ** k).bit_length()}")
+    for _ in range(reps):
+        fs = [rng.choice(fc.SMALL_PRIMES) for _ in range(rng.randint(2, 4))]
+        fs.append(gen.rand_prime(rng, 500 - fc.prod(fs).bit_length()))
+        if fc.prod(fs).bit_length() <= 500:
+            yield case(fs, "smooth500")
+
+
 def cases(tier, rng, extended=False):
     quick = tier == "quick"
+    yield from boundary_cases(_fork(rng, "C02-boundary"), tier)
     top = 1 << (22 if quick else 26)
     step = 1 << 18
     for lo in range(0, top, step):
